@@ -236,16 +236,31 @@ def correspondence(ctx):
 
 
 def search(ctx, broken, corr_failures):
+    """two stages, so that a concrete failing input found by the short first stage is not lost when the long second stage
+    times out on a loaded machine: (1) prewitt / sobel on affine fields at points interior w.r.t. the other axes including both
+    ends of the differentiated axis (spatial_derivatives, flow_derivatives, jacobian_matrix, divergence, curl; D = 2, 3; all
+    spacing forms), (2) everything else"""
     n = ctx.n(48, 480)
-    r = vlib.run_impl("c12_impl", {"fn": "oracle", "seed": ctx.seed, "n": n}, timeout=1500)
-    ctx.notes.append(f"implementation-side property evaluation: {r['counts']}")
     out = []
     seen = set()
-    for f in r["fails"]:
-        if f["key"] in seen:
+    counts = {}
+    errors = []
+    for stage in ("edge", "main"):
+        try:
+            r = vlib.run_impl("c12_impl", {"fn": "oracle", "seed": ctx.seed, "n": n, "stage": stage}, timeout=1500)
+        except Exception as exc:  # noqa
+            errors.append(f"stage {stage}: {str(exc)[:200]}")
             continue
-        seen.add(f["key"])
-        out.append(Violation(key=f["key"], what=f["what"], replay={"oracle": "c12", "seed": ctx.seed, "n": n, "failure": f}))
+        counts.update(r["counts"])
+        for f in r["fails"]:
+            if f["key"] in seen:
+                continue
+            seen.add(f["key"])
+            out.append(Violation(key=f["key"], what=f["what"], replay={"oracle": "c12", "seed": ctx.seed, "n": n, "stage": stage, "failure": f}))
+    ctx.notes.append(f"implementation-side property evaluation: {counts}")
+    for e in errors:
+        out.append(Violation(key="C12:search:incomplete", what="implementation-side exploration did not finish: " + e,
+                             replay={"search_error": e}, found_input=False))
     return out
 
 
@@ -256,7 +271,10 @@ def explains(broken_item, found):
     known, _ = vlib.load_findings()  # a known finding never explains a newly broken obligation
     keys = " ".join(v.key for v in found if v.key not in known).lower()
     m = re.search(r"\.v:\d+ ([A-Za-z0-9_']+):", broken_item)
-    b = (m.group(1) if m else broken_item).lower()
+    if not m:
+        # translator unit / correspondence / build items name no lemma: any new concrete failing input explains them
+        return any(v.key not in known for v in found)
+    b = m.group(1).lower()
     table = [(("det2", "det3", "gen_det", "jacobian_det"), ("jacobian_det",)),
              (("div_formula", "gen_div", "divergence"), ("divergence",)),
              (("curl",), ("curl",)),
@@ -273,7 +291,8 @@ def explains(broken_item, found):
 
 def replay(ctx, data):
     f = data.get("failure") or {}
-    r = vlib.run_impl("c12_impl", {"fn": "oracle", "seed": data.get("seed", ctx.seed), "n": data.get("n", 48)}, timeout=1500)
+    r = vlib.run_impl("c12_impl", {"fn": "oracle", "seed": data.get("seed", ctx.seed), "n": data.get("n", 48),
+                                   "stage": data.get("stage", "all")}, timeout=1500)
     for g in r["fails"]:
         if g["key"] == f.get("key"):
             return g["what"]
